@@ -132,7 +132,7 @@ func Run(r *ev.Run) {
 			if kind == "v2dir" {
 				return op.name == "generate-log"
 			}
-			return op.kind == kGenerate && (op.name == "generate-storage-pair" || op.name == "generate-hmac" || op.name == "generate-poison-sym") || op.name == "import-keyrings" || (op.name == "import-bundle" && kind == "v1")
+			return op.kind == kGenerate && (op.name == "generate-storage-pair" || op.name == "generate-hmac" || op.name == "generate-poison-sym" || op.name == "generate-poison-pair") || op.name == "import-keyrings" || (op.name == "import-bundle" && kind == "v1")
 		case "one-key":
 			return kind != "v2dir" && (op.name == "generate-storage-sym" || op.name == "generate-log" || op.name == "save-storage-pair")
 		case "rotated-twice":
@@ -228,7 +228,7 @@ func Run(r *ev.Run) {
 	}
 
 	r.Extra("jobs", len(jobs))
-	r.SetExhaustive(true)
+	r.SetExhaustive(r.Thorough()) // thorough: every (format, history, operation) combination × every call × every mode; quick: a fixed subset of the combinations
 	// non-vacuity: a run that injected nothing, saw no crash snapshot, no retry, no old/new outcome must fail
 	r.RequireAtLeast("fault_runs_fired", int64(r.Pick(1000, 4000)))
 	r.RequireAtLeast("crash_snapshots_probed", 500)
